@@ -1,5 +1,5 @@
 (* Proofs about the bond-detection model (C17) *)
-From Coq Require Import ZArith List Bool String Lia Arith.
+From Coq Require Import ZArith List Bool String Lia Arith Sorted.
 From Mofun Require Import Model.Atoms Model.Geom Model.Bonds.
 Import ListNotations.
 Open Scope Z_scope.
@@ -161,7 +161,50 @@ Proof.
   intros H p q. unfold detect in H. rewrite (detect_from_spec cell atoms 0%nat l H p q).
   rewrite !Nat.sub_0_r. split; intros [A B]; (split; [lia|exact B]).
 Qed.
+(* the output is strictly increasing in lexicographic order: in particular every pair is reported once *)
+Definition pair_lt (x y : nat * nat) : Prop := (fst x < fst y)%nat \/ (fst x = fst y /\ (snd x < snd y)%nat).
+Lemma pairs_from_sorted cell i a : forall rest j l, pairs_from radii non_metals U cell i a j rest = Some l ->
+  StronglySorted pair_lt l /\ Forall (fun x => fst x = i /\ (j <= snd x)%nat) l.
+Proof.
+  induction rest as [|b rest IH]; intros j l H; cbn [pairs_from] in H.
+  - injection H as <-. split; constructor.
+  - destruct (bonded cell a b) as [hit|]; [|discriminate].
+    destruct (pairs_from radii non_metals U cell i a (S j) rest) as [tl|] eqn:Et; [|discriminate]. injection H as <-.
+    destruct (IH (S j) tl Et) as [S1 F1].
+    assert (F2 : Forall (fun x => fst x = i /\ (j <= snd x)%nat) tl) by (eapply Forall_impl; [|exact F1]; cbn; intros x [A B]; split; [exact A|lia]).
+    destruct hit; [|split; assumption]. split.
+    + constructor; [exact S1|]. eapply Forall_impl; [|exact F1]. cbn. intros x [A B]. right. cbn. split; [symmetry; exact A|lia].
+    + constructor; [cbn; split; [reflexivity|lia]|exact F2].
+Qed.
+Lemma StronglySorted_app {A} (R : A -> A -> Prop) l1 l2 : StronglySorted R l1 -> StronglySorted R l2 ->
+  (forall x y, In x l1 -> In y l2 -> R x y) -> StronglySorted R (l1 ++ l2).
+Proof.
+  induction l1 as [|x l1 IH]; intros S1 S2 H; [exact S2|]. inversion S1 as [|? ? Sl Fx]; subst. cbn. constructor.
+  - apply IH; [exact Sl|exact S2|]. intros a b Ha Hb. apply H; [right; exact Ha|exact Hb].
+  - apply Forall_app. split; [exact Fx|]. apply Forall_forall. intros y Hy. apply H; [left; reflexivity|exact Hy].
+Qed.
+Lemma detect_from_sorted cell : forall atoms s l, detect_from radii non_metals U cell s atoms = Some l ->
+  StronglySorted pair_lt l /\ Forall (fun x => (s <= fst x)%nat) l.
+Proof.
+  induction atoms as [|a rest IH]; intros s l H; cbn [detect_from] in H.
+  - injection H as <-. split; constructor.
+  - destruct (pairs_from radii non_metals U cell s a (S s) rest) as [l1|] eqn:E1; [|discriminate].
+    destruct (detect_from radii non_metals U cell (S s) rest) as [l2|] eqn:E2; [|discriminate]. injection H as <-.
+    destruct (pairs_from_sorted cell s a rest (S s) l1 E1) as [S1 F1]. destruct (IH (S s) l2 E2) as [S2 F2]. split.
+    + apply StronglySorted_app; [exact S1|exact S2|]. intros x y Hx Hy. rewrite Forall_forall in F1, F2. destruct (F1 x Hx) as [A _]. specialize (F2 y Hy).
+      left. cbn in *. lia.
+    + apply Forall_app. split; [eapply Forall_impl; [|exact F1]; cbn; intros x [A _]; lia|eapply Forall_impl; [|exact F2]; cbn; intros x A; lia].
+Qed.
+Lemma pair_lt_irrefl x : ~ pair_lt x x.
+Proof. unfold pair_lt. lia. Qed.
+Lemma sorted_NoDup (l : list (nat * nat)) : StronglySorted pair_lt l -> NoDup l.
+Proof.
+  induction 1 as [|x l Sl IH Fx]; constructor; [|exact IH]. intros Hin. rewrite Forall_forall in Fx. apply (pair_lt_irrefl x). apply Fx. exact Hin.
+Qed.
+Theorem detect_sorted cell atoms l : detect radii non_metals U cell atoms = Some l -> StronglySorted pair_lt l /\ NoDup l.
+Proof. intros H. destruct (detect_from_sorted cell atoms 0%nat l H) as [S _]. split; [exact S|apply sorted_NoDup; exact S]. Qed.
 End Spec.
+
 
 (* ---------- invariance of the minimum-image criterion under a common shift and per-atom lattice translations ---------- *)
 
